@@ -27,6 +27,34 @@ def init : St := ⟨false, []⟩
 
 def bad : String := "bad"
 
+/-- one item of a compact list: `n`, `a..b` (a, a+1, …, b) or `v*n` (n copies of v) -/
+def parseItem (t : String) : Option (List Nat) :=
+  match t.splitOn ".." with
+  | [a, b] =>
+    match a.toNat?, b.toNat? with
+    | some a, some b => if a ≤ b then some (List.range' a (b - a + 1)) else none
+    | _, _ => none
+  | _ =>
+    match t.splitOn "*" with
+    | [v, n] =>
+      match v.toNat?, n.toNat? with
+      | some v, some n => some (List.replicate n v)
+      | _, _ => none
+    | _ => t.toNat?.map (fun v => [v])
+
+/-- list of naturals in the compact notation of the harness: `-` or comma separated items -/
+def parseCompact (s : String) : Option (List Nat) :=
+  if s = "-" then some []
+  else ((s.splitOn ",").mapM parseItem).map List.flatten
+
+/-- placeholder the harness writes for the data of a deleted physical row -/
+def deletedVal : Nat := 999999
+
+/-- the `x` column token: `=` means the value the harness writes at creation, `x = (7 k + 3) mod 50` -/
+def parseXs (tok : String) (ks : List Nat) : Option (List Nat) :=
+  if tok = "=" then some (ks.map (fun k => if k = deletedVal then deletedVal else (k * 7 + 3) % 50))
+  else parseCompact tok
+
 def dedup : List Nat → List Nat
   | [] => []
   | a :: t => if (dedup t).contains a then dedup t else a :: dedup t
@@ -70,7 +98,7 @@ def step (s : St) (line : String) : St × String :=
     | some n => (⟨true, []⟩, s!"ok 1 {n}")
     | none => (s, bad)
   | ["sfrag", id, nphys, dv, rowids, seglens] =>
-    match id.toNat?, nphys.toNat?, parseNatList dv, parseNatList rowids, parseNatList seglens with
+    match id.toNat?, nphys.toNat?, parseCompact dv, parseCompact rowids, parseCompact seglens with
     | some id, some nphys, some dv, some rowids, some _ =>
       if rowids.length = nphys then
         let f : Frag := ⟨id, nphys, dedup dv, [], [], rowids⟩
@@ -78,43 +106,45 @@ def step (s : St) (line : String) : St × String :=
       else (s, bad)
     | _, _, _, _, _ => (s, bad)
   | ["frag", id, nphys, dv, ks, xs, rowids] =>
-    match id.toNat?, nphys.toNat?, parseNatList dv, parseNatList ks, parseNatList xs, parseNatList rowids with
-    | some id, some nphys, some dv, some ks, some xs, some rowids =>
-      let f : Frag := ⟨id, nphys, dedup dv, ks, xs, rowids⟩
-      (⟨s.stable, s.frags ++ [f]⟩,
-        s!"frag {id} {nphys} {showNatList (sortNat f.dv)} {showNatList ks} {showNatList xs} {showNatList rowids} live={f.countRows}")
-    | _, _, _, _, _, _ => (s, bad)
+    match id.toNat?, nphys.toNat?, parseCompact dv, parseCompact ks, parseCompact rowids with
+    | some idn, some nphysn, some dvl, some ksl, some ridl =>
+      match parseXs xs ksl with
+      | some xsl =>
+        let f : Frag := ⟨idn, nphysn, dedup dvl, ksl, xsl, ridl⟩
+        (⟨s.stable, s.frags ++ [f]⟩, s!"frag {id} {nphys} {dv} {ks} {xs} {rowids} live={f.countRows}")
+      | none => (s, bad)
+    | _, _, _, _, _ => (s, bad)
   | ["count"] => (s, toString (scanRows s.frags s.stable).length)
   | ["scan"] => (s, showRows "kxai" (scanRows s.frags s.stable))
   | ["take", cols, offs] =>
-    match validCols cols, parseNatList offs with
+    match validCols cols, parseCompact offs with
     | true, some offs => (s, showRes cols (take s.frags s.stable offs))
     | _, _ => (s, bad)
   | ["takerows", cols, ids] =>
-    match validCols cols, parseNatList ids with
+    match validCols cols, parseCompact ids with
     | true, some ids =>
       if s.stable then (s, showRes cols (takeRowsById s.frags ids))
       else (s, showRes cols (takeAddrs s.frags false (ids.map decodeAddr)))
     | _, _ => (s, bad)
   | ["takeaddr", cols, addrs] =>
-    match validCols cols, parseNatList addrs with
+    match validCols cols, parseCompact addrs with
     | true, some addrs => (s, showRes cols (takeAddrs s.frags s.stable (addrs.map decodeAddr)))
     | _, _ => (s, bad)
   | ["takescan", cols, starts, ends] =>
-    match validCols cols, parseNatList starts, parseNatList ends with
+    match validCols cols, parseCompact starts, parseCompact ends with
     | true, some starts, some ends =>
       if starts.length = ends.length then (s, showRes cols (takeScan s.frags s.stable (starts.zip ends)))
       else (s, bad)
     | _, _, _ => (s, bad)
   | ["map", kind, dv, offs] =>
-    match kind == "S" || kind == "B", parseNatList dv, parseNatList offs with
+    match kind == "S" || kind == "B", parseCompact dv, parseCompact offs with
     | true, some dv, some offs =>
       match runMapper (Mapper.new (dedup dv)) offs with
       | some rs => (s, showNatList rs)
       | none => (s, "noreturn")
     | _, _, _ => (s, bad)
   | ["idx", ids] =>
-    match parseNatList ids with
+    match parseCompact ids with
     | some ids =>
       (s, " ".intercalate (ids.map (fun i => match indexGet s.frags i with
                                              | some a => toString a.toNat
